@@ -1,4 +1,55 @@
-Require Import DV.Base.Bytes.
-Theorem C01_placeholder : True.
-Proof. exact I. Qed.
-Print Assumptions C01_placeholder.
+(* C01: encoded bytes are exactly the RFC 6733 wire format.  Proofs: Proofs/BuildFacts.v, AvpFacts.v *)
+Require Import DV.Base.Bytes DV.Base.Utf8 DV.Model.Leaf DV.Spec.Wire DV.Model.Avp DV.Model.Message
+  DV.Model.Dict DV.Model.Build DV.Proofs.AvpFacts DV.Proofs.DecSound DV.Proofs.BuildFacts.
+Local Open Scope N_scope.
+
+(* every construction history: new + add / add_avp / add_avp_by_name / re-add of a cloned AVP /
+   group cloned out and re-wrapped, starting from new() or from a decoded frame; in the wire
+   domain the encoder emits exactly the reference encoding of the tree, and the length the
+   message reports about itself is the number of octets *)
+Theorem C01_encode_is_rfc6733 : forall lim ds s ops m0,
+  dswf ds -> hstart_wf s -> hops_wf ops ->
+  hstart_msg lim ds s = Ok m0 -> msg_nomm m0 ->
+  let m := fst (hrun ds m0 ops) in
+  msg_wireb m = true ->
+  enc_msg m = Ok (spec_msg (abs_msg m)) /\ m_len m = blen (spec_msg (abs_msg m)).
+Proof. exact history_encodes_rfc6733. Qed.
+Print Assumptions C01_encode_is_rfc6733.
+
+(* per AVP, for any tree with the natural stored lengths *)
+Theorem C01_avp_is_rfc6733 : forall a, consistent a -> rep a ->
+  enc_avp a = spec_avp (abs a) /\ blen (enc_avp a) = a_len a + a_pad a.
+Proof. exact enc_is_spec. Qed.
+Print Assumptions C01_avp_is_rfc6733.
+
+(* what the constructors establish, step by step *)
+Theorem C01_history_invariant : forall ds, dswf ds -> forall ops m, good m -> hops_wf ops -> good (fst (hrun ds m ops)).
+Proof. exact hrun_good. Qed.
+Print Assumptions C01_history_invariant.
+
+Theorem C01_decoded_start_invariant : forall lim d bs m, dec_msg lim d bs = Ok m -> complete bs -> msg_nomm m -> good m.
+Proof. exact decoded_good. Qed.
+Print Assumptions C01_decoded_start_invariant.
+
+(* the layout the reference encoder stands for (RFC 6733 sections 3 and 4.1): V set exactly when a
+   vendor id is present, the 24-bit length excludes padding, zero padding to a 4-octet boundary,
+   a group's data is the concatenation of its members *)
+Theorem C01_layout_avp : forall c vd m p v,
+  spec_avp (SAvp c vd m p v) =
+  be32 c ++ [b_of_N ((if is_some vd then 128 else 0) + (if m then 64 else 0) + (if p then 32 else 0))]
+    ++ be24 ((match vd with Some _ => 12 | None => 8 end) + blen (spec_val v))
+    ++ (match vd with Some x => be32 x | None => [] end)
+    ++ spec_val v ++ zeros ((4 - blen (spec_val v) mod 4) mod 4).
+Proof. intros c vd m p v; exact eq_refl. Qed.
+Print Assumptions C01_layout_avp.
+
+Theorem C01_layout_group : forall ms, spec_val (SGrp ms) = flat_map spec_avp ms.
+Proof. intros ms; exact eq_refl. Qed.
+Print Assumptions C01_layout_group.
+
+Theorem C01_layout_msg : forall m,
+  spec_msg m =
+  [b_of_N (s_ver m)] ++ be24 (20 + blen (flat_map spec_avp (s_avps m))) ++ [b_of_N (s_flags m)] ++ be24 (s_cmd m)
+    ++ be32 (s_app m) ++ be32 (s_hbh m) ++ be32 (s_e2e m) ++ flat_map spec_avp (s_avps m).
+Proof. intros m; exact (eq_sym (app_assoc _ _ _)). Qed.
+Print Assumptions C01_layout_msg.
